@@ -3,6 +3,7 @@ import bz2
 import gzip
 import io
 import os
+import shutil
 import tarfile
 
 from vlib import core, e2e, text_oracles
@@ -310,12 +311,58 @@ def oracle_multiblock(ctx):
                     'windows -a/-b/-a -b inside the log; gz/bz2/xz/lz4/tar vs plain: same stdout and exit status; distinct = reference runs with non-empty output'}
 
 
+def oracle_multimember_tar(ctx):
+    """A .tar with several members, some of whose paths are suffixes of one another (`old/app.log` before `app.log`, as when a
+    log directory is archived together with its `old/` subdirectory): the archive must print what the extracted members, named
+    in archive order, print."""
+    import io
+    import tarfile
+    rng = e2e.Rng(ctx.seed * 73 + 19)
+    fails, ev = [], 0
+    for k in range(ctx.q(6, 40)):
+        base = os.path.join(ctx.work, 'mt_%d' % k)
+        os.makedirs(base, exist_ok=True)
+        stem = rng.pick(['app.log', 'messages', 'syslog', 'x.log'])
+        names = rng.pick([['old/' + stem, stem], [stem, 'old/' + stem], ['a/b/' + stem, 'b/' + stem, stem], ['archive/' + stem, 'other.log', stem],
+                          ['one.log', 'two.log'], [stem]])
+        members = []
+        for i, nm in enumerate(names):
+            log = e2e.gen_log(rng, rng.range(2, 12), start=1672531200 + i, steps=(0, 1, 2, 5), maxlen=30, weird=False, tag=b'M%d ' % i)
+            members.append((nm, log.data))
+        tpath = os.path.join(base, 'bundle.tar')
+        with tarfile.open(tpath, 'w', format=rng.pick([tarfile.USTAR_FORMAT, tarfile.GNU_FORMAT])) as tf:
+            for nm, data in members:
+                ti = tarfile.TarInfo(nm)
+                ti.size = len(data)
+                ti.mtime = 1700000000
+                tf.addfile(ti, io.BytesIO(data))
+        plain = []
+        for i, (nm, data) in enumerate(members):
+            pp = os.path.join(base, 'x%d' % i, nm)
+            os.makedirs(os.path.dirname(pp), exist_ok=True)
+            open(pp, 'wb').write(data)
+            plain.append(pp)
+        for extra in ([], ['--blocksz', '256']):
+            r0 = e2e.s4(e2e.BASE_ARGS + list(extra) + plain, timeout=180)[:2]
+            r1 = run(tpath, extra)[:2]
+            ev += 2
+            if r0 != r1:
+                fails.append({'signature': 'container:tar-differs-from-plain',
+                              'detail': f'members {names} args {extra}: rc {r1[0]} vs {r0[0]}; ' + first_diff(r1[1], r0[1]),
+                              'args': e2e.BASE_ARGS + list(extra) + ['bundle.tar'], 'members': names})
+        shutil.rmtree(base, ignore_errors=True)
+    return {'evaluations': ev, 'distinct_nontrivial': ev, 'failures': fails, 'samples': [],
+            'rule': 'tar archives of 1-3 members incl. member paths that are suffixes of one another, at the default and a small block size: '
+                    'stdout and exit status == the extracted members named in archive order'}
+
+
 def oracle(ctx):
     a = text_oracles.oracle_containers(ctx, ctx.q(6, 40))
     b = oracle_binary_kinds(ctx)
     c = oracle_known_decoder_findings(ctx)
     d = oracle_multiblock(ctx)
-    return core.merge_oracles([a, b, c, d])
+    e = oracle_multimember_tar(ctx)
+    return core.merge_oracles([a, b, c, d, e])
 
 
 def check(ctx):
